@@ -12,6 +12,7 @@ class Namer:
         self.r = 0
         self.c = 0
         self.maxn = 6
+        self.deflook = False    # explicit names that look like library defaults: only for histories that are never rebuilt call by call
 
     def row(self, rnd, p_none=0.15):
         if rnd.random() < p_none:
@@ -65,11 +66,11 @@ EDIT_KINDS = [
 ]
 
 
-def default_looking(rnd, m, L, pos, prefix, count, existing):
+def default_looking(rnd, m, L, pos, prefix, count, existing, enabled=False):
     """in a list add with a NULL (default-named) entry followed by an explicit one, sometimes give the explicit entry exactly the
     name the library would generate for the NULL entry (prefix + index+1): the call is valid and the explicit name has to be kept.
     Only when every existing name is known to the model (no earlier default names) and the name is unused."""
-    if rnd.random() > 0.3 or any(n is None for n in existing):
+    if not enabled or rnd.random() > 0.3 or any(n is None for n in existing):
         return L
     for t in range(1, len(L)):
         if L[t - 1][pos] is None and L[t][pos] is not None:
@@ -112,7 +113,7 @@ def rnd_edit(rnd, m, nm, grow=0.5, kinds=None):
         for _ in range(rnd.randint(1, 3)):
             lo, up = bounds(rnd)
             L.append((val(rnd), lo, up, None if (anynone or rnd.random() < 0.2) else nm.col(rnd, 0), ents(rnd, nr, maxn=nm.maxn)))
-        return ("add_cols", default_looking(rnd, m, L, 3, "x", m.ncols, [c.name for c in m.cols]))
+        return ("add_cols", default_looking(rnd, m, L, 3, "x", m.ncols, [c.name for c in m.cols], nm.deflook))
     if k == "new_row":
         return ("new_row", val(rnd), rnd.choice("LGE"), nm.row(rnd))
     if k == "add_row":
@@ -120,7 +121,7 @@ def rnd_edit(rnd, m, nm, grow=0.5, kinds=None):
     if k == "add_rows":
         anynone = rnd.random() < 0.15
         L = [(val(rnd), rnd.choice("LGE"), None if (anynone or rnd.random() < 0.2) else nm.row(rnd, 0), ents(rnd, nc, maxn=nm.maxn)) for _ in range(rnd.randint(1, 3))]
-        return ("add_rows", default_looking(rnd, m, L, 2, "c", m.nrows, [r.name for r in m.rows]))
+        return ("add_rows", default_looking(rnd, m, L, 2, "c", m.nrows, [r.name for r in m.rows], nm.deflook))
     if k == "add_ranged_row":
         return ("add_ranged_row", val(rnd), "R", abs(val(rnd)), nm.row(rnd), ents(rnd, nc, maxn=nm.maxn))
     if k == "add_ranged_rows":
@@ -130,7 +131,7 @@ def rnd_edit(rnd, m, nm, grow=0.5, kinds=None):
             s = rnd.choice("LGER R")
             s = "R" if s == " " else s
             L.append((val(rnd), s, abs(val(rnd)) if s == "R" else F(0), None if (anynone or rnd.random() < 0.2) else nm.row(rnd, 0), ents(rnd, nc, maxn=nm.maxn)))
-        return ("add_ranged_rows", default_looking(rnd, m, L, 3, "c", m.nrows, [r.name for r in m.rows]))
+        return ("add_ranged_rows", default_looking(rnd, m, L, 3, "c", m.nrows, [r.name for r in m.rows], nm.deflook))
     if k == "delete_row":
         return ("delete_row", rnd.randrange(nr)) if nr else None
     if k == "delete_rows":
